@@ -17,7 +17,7 @@ pub fn families() -> Vec<Family> {
             "one real waiter in wait_for_credit/wait_for_reconnect, 1-3 signaller threads, quiescence monitor",
             c12_wake,
         )
-        .runs(12_000, 1_000_000)
+        .runs(80_000, 4_800_000)
         .steps(100_000),
         Family::new(
             "c11_history",
@@ -25,7 +25,7 @@ pub fn families() -> Vec<Family> {
             "operation histories on the real TransferControl vs. a credit model (expired-deadline waits)",
             c11_history,
         )
-        .runs(20_000, 1_000_000)
+        .runs(200_000, 12_000_000)
         .deadlock(OnDeadlock::HarnessError),
         Family::new(
             "c11_producer",
@@ -33,7 +33,7 @@ pub fn families() -> Vec<Family> {
             "documented producer loop against concurrent ack/advance/resume/cancel threads",
             c11_producer,
         )
-        .runs(6_000, 300_000)
+        .runs(50_000, 3_000_000)
         .steps(200_000),
         Family::new(
             "c13_history",
@@ -41,7 +41,7 @@ pub fn families() -> Vec<Family> {
             "push/evict/resume/advance/cancel histories on the real replay ring vs. a retained-suffix model",
             c13_history,
         )
-        .runs(20_000, 1_000_000)
+        .runs(200_000, 12_000_000)
         .deadlock(OnDeadlock::HarnessError),
     ]
 }
